@@ -114,6 +114,18 @@ CHECKS = {
         note="oracle PGN+SAN readers must replay every game (exit 2 otherwise); ep availability = pseudo-legal availability, mismatches with legal availability counted",
         ref="DESIGN.md 6 C16",
     ),
+    "C07": dict(
+        technique="stateful property-based testing at the process boundary: generated UCI command sequences with generated driver timings against a session model on the rules oracle",
+        text="Generated-input search: sessions over {uci, isready, ucinewgame, position, go depth/movetime/bare, stop, .state} with per-command timing actions and isready barriers, ended by quit or EOF, on book lines, tempo-losing lines, right-stripped placements, endgames, low-mobility and terminal positions: id/uciok order, one readyok per isready, exactly one legal bestmove per go in order, bestmove before the barrier after the next joining command, .state FEN equals the oracle's, exit status 0.",
+        note="command timing sampled, oracle independent of race outcomes; waits of 60 s are watchdogs",
+        ref="DESIGN.md 6 C07",
+    ),
+    "C18": dict(
+        technique="property-based differential testing at the process boundary: generated pre-ucinewgame histories, answer compared with a fresh-process control on tablebase positions with a unique mating move",
+        text="Generated-input search: histories of position/go/stop before ucinewgame that search the one successor whose recording would hide a tablebase mate in 1 or 3; after ucinewgame the engine must answer score cp >= 10000 and the unique mating move, exactly like a freshly started control process (cases whose control misses the mate are discarded and counted).",
+        note="seed-independent oracle by construction; stale table content that does not change the answer is not observable",
+        ref="DESIGN.md 6 C18",
+    ),
 }
 
 NOT_YET = {
